@@ -874,7 +874,7 @@ func main() {
 			"user callbacks do not panic (only Apply/Apply2/Func* promise to capture panics)",
 		}
 		if r.Thorough() {
-			r.Deadline = 90 * time.Minute
+			r.Deadline = 120 * time.Minute
 		}
 		if !mc.Instrumented {
 			panic("C06 must be built with the overlay (-tags verifrt)")
@@ -932,6 +932,16 @@ func main() {
 				if !r.Thorough() && R.arity+K.arity-1 > 3 {
 					continue // quick: at most three operand sources (plus the callback source)
 				}
+				// thorough, as measured (400 million runs in 90 minutes covered 60 % of the original
+				// plan): five-source trees (about 25 million runs each) are left out, four-source
+				// trees are explored for pairs of core kinds with one deviating source
+				nsrc := R.arity + K.arity - 1
+				if nsrc > 4 || (nsrc == 4 && !bothCore) {
+					continue
+				}
+				if nsrc == 4 {
+					dev = 1
+				}
 				for pos := 0; pos < R.arity; pos++ {
 					next := 0
 					kids := make([]*node, R.arity)
@@ -949,7 +959,7 @@ func main() {
 						}
 					}
 					for _, ex := range execs {
-						if ex != "default" && !bothCore {
+						if ex != "default" && (!bothCore || nsrc > 3) {
 							continue
 						}
 						addTree(&node{k: R, kids: kids}, ex, dev)
